@@ -7,91 +7,74 @@ import MTfitVerif.Props.C13
 /-
   C20D, part B — the scalar kernels `cN_SDR` and `csingleSDR_SDR` of cmoment_tensor_conversion.pyx, as translated in
   `Model/PyxKernels.lean`, equal over ℝ the models `fpToSdr`, `sdrToSdr` (`Model/Convert.lean`) of the Python `FP_SDR`,
-  `SDR_SDR` for unit perpendicular normal and slip on non-horizontal planes.  On horizontal planes they differ (FINDING): the
-  compiled code evaluates the rake as `atan2(-s_z, s_x n_y - s_y n_x)`, both arguments of which vanish there, and lacks the
-  in-plane form that the Python path switches to when `sin(dip) < 1e-6`.
+  `SDR_SDR`: `cN_SDR` for every unit normal and unit slip, `csingleSDR_SDR` for every strike, dip, rake with `0 ≤ sin d`.
+  (`cN_SDR` has the in-plane form of the rake for `sin(dip) < 1e-6` that `FP_SDR` has; before that repair the two differed
+  on horizontal planes.)
 -/
 set_option linter.unusedVariables false
 namespace MTfitVerif.C20
 open MTfitVerif MTfitVerif.Convert Real MTfitVerif.ConvertSdr MTfitVerif.PyxSdr
 
-/-- the compiled `cN_SDR` over ℝ with its dead branches removed -/
+/-- the rake as the compiled `cN_SDR` evaluates it from the raw strike `A = atan2(-N0, N1)` and the dip `D`: the in-plane form
+    when `sin D < 1e-6`, otherwise `atan2(-S2, S0 N1 - S1 N0)` -/
+noncomputable def cRake (A D N0 N1 S0 S1 S2 : ℝ) : ℝ :=
+  if sin D < (sci 1 6 : ℝ) then
+    atan2 (S0 * sin A * cos D - S1 * cos A * cos D - S2 * sin D) (S0 * cos A + S1 * sin A)
+  else atan2 (-S2) (S0 * N1 - S1 * N0)
+
+theorem cRake_mem (A D N0 N1 S0 S1 S2 : ℝ) : -π < cRake A D N0 N1 S0 S1 S2 ∧ cRake A D N0 N1 S0 S1 S2 ≤ π := by
+  unfold cRake; split <;> exact atan2_mem _ _
+
+/-- the compiled `cN_SDR` over ℝ with its dead branches removed (`dip > π/2`, the `fmod` of the strike, the rake wraps) -/
 theorem cN_SDR_closed (N0 N1 N2 S0 S1 S2 a b c' : ℝ) :
     Pyx.cconvert.cN_SDR N0 N1 N2 S0 S1 S2 a b c'
       = if 0 < N2 then
           (mod2pi (mod2pi (atan2 (-(-N0)) (-N1))),
             atan2 ((-N1) * (-N1) + (-N0) * (-N0)) (√(((-N0) * (-N2)) * ((-N0) * (-N2)) + ((-N1) * (-N2)) * ((-N1) * (-N2)))),
-            atan2 (-(-S2)) ((-S0) * (-N1) - (-S1) * (-N0)))
+            cRake (atan2 (-(-N0)) (-N1))
+              (atan2 ((-N1) * (-N1) + (-N0) * (-N0)) (√(((-N0) * (-N2)) * ((-N0) * (-N2)) + ((-N1) * (-N2)) * ((-N1) * (-N2)))))
+              (-N0) (-N1) (-S0) (-S1) (-S2))
         else
           (mod2pi (mod2pi (atan2 (-N0) N1)),
             atan2 (N1 * N1 + N0 * N0) (√((N0 * N2) * (N0 * N2) + (N1 * N2) * (N1 * N2))),
-            atan2 (-S2) (S0 * N1 - S1 * N0)) := by
-  unfold Pyx.cconvert.cN_SDR
-  simp only [Pyx.cconvert.k_PI2, flt_ltb, flt_c, flt_pi, flt_atan2, flt_sqrt, flt_abs, Nat.cast_zero, Nat.cast_ofNat,
-    decide_eq_true_eq, atan2_gt_pi_iff, atan2_lt_neg_pi_iff, abs_atan2_gt_two_pi_iff, dip_gt_iff, if_false,
+            cRake (atan2 (-N0) N1) (atan2 (N1 * N1 + N0 * N0) (√((N0 * N2) * (N0 * N2) + (N1 * N2) * (N1 * N2))))
+              N0 N1 S0 S1 S2) := by
+  unfold Pyx.cconvert.cN_SDR cRake
+  simp only [Pyx.cconvert.k_PI2, flt_ltb, flt_c, flt_pi, flt_atan2, flt_sqrt, flt_abs, flt_sin, flt_cos, Nat.cast_zero,
+    Nat.cast_ofNat, decide_eq_true_eq, atan2_gt_pi_iff, atan2_lt_neg_pi_iff, abs_atan2_gt_two_pi_iff, dip_gt_iff, if_false,
     mod2pi_mod2pi_atan2]
-  split <;> split <;> rfl
+  split_ifs <;> rfl
 
-/-- agreement of the compiled `cN_SDR` with the model of `FP_SDR` for unit vectors, given that the rake of the (possibly
-    negated) pair is the plain `atan2` form -/
-theorem cN_SDR_eq_of_rake (N S : V3 ℝ) (a b c' : ℝ) (hN : V3.dot N N = 1) (hS : V3.dot S S = 1)
-    (hr : ∀ m t : V3 ℝ, ((m = N ∧ t = S ∧ ¬ 0 < N.z) ∨ (m = N.neg ∧ t = S.neg ∧ 0 < N.z)) →
-      rakeOf m t = atan2 (-t.z) (t.x * m.y - t.y * m.x)) :
-    Pyx.cconvert.cN_SDR N.x N.y N.z S.x S.y S.z a b c' = fpToSdr N S := by
-  obtain ⟨m, t, hc, hmz, h⟩ := fpToSdr_eq N S
-  rw [unit_of_unit hN, unit_of_unit hS] at hc
-  rw [h, cN_SDR_closed, hr m t hc]
+/-- the rake of the model of `FP_SDR` is the compiled kernel's: the model reads the strike after `np.mod(·, 2π)`, the kernel
+    before, and only through its sine and cosine -/
+theorem rakeOf_eq_cRake (m t : V3 ℝ) :
+    rakeOf m t = cRake (atan2 (-m.x) m.y)
+      (atan2 (m.y * m.y + m.x * m.x) (√((m.x * m.z) * (m.x * m.z) + (m.y * m.z) * (m.y * m.z)))) m.x m.y t.x t.y t.z := by
+  simp only [rakeOf, rakeRaw, sdOf, cRake, sin_mod2pi, cos_mod2pi]
+
+/-- C20D item 5: over ℝ the compiled `cN_SDR(normal, slip)` (with the in-plane rake branch for `sin(dip) < 1e-6`) equals the
+    model `fpToSdr` of the Python `FP_SDR` for every unit normal and unit slip vector — horizontal planes included, and
+    perpendicularity is not needed.  (The kernel does not normalise its arguments, `FP_SDR` does: hence the unit hypotheses.  The
+    three trailing arguments of the kernel are the C output slots; it does not read them.) -/
+theorem cN_SDR_eq (N0 N1 N2 S0 S1 S2 a b c' : ℝ) (hN : N0 * N0 + N1 * N1 + N2 * N2 = 1)
+    (hS : S0 * S0 + S1 * S1 + S2 * S2 = 1) :
+    Pyx.cconvert.cN_SDR N0 N1 N2 S0 S1 S2 a b c' = fpToSdr ⟨N0, N1, N2⟩ ⟨S0, S1, S2⟩ := by
+  obtain ⟨m, t, hc, hmz, h⟩ := fpToSdr_eq ⟨N0, N1, N2⟩ ⟨S0, S1, S2⟩
+  rw [unit_of_unit (a := ⟨N0, N1, N2⟩) hN, unit_of_unit (a := ⟨S0, S1, S2⟩) hS] at hc
+  rw [h, cN_SDR_closed, rakeOf_eq_cRake]
   rcases hc with ⟨rfl, rfl, hz⟩ | ⟨rfl, rfl, hz⟩
   · rw [if_neg hz]; rfl
   · rw [if_pos hz]; rfl
 
-/-- C20D item 5: over ℝ the compiled `cN_SDR(normal, slip)` equals the model `fpToSdr` of the Python `FP_SDR` for a unit
-    normal and a unit slip vector that are perpendicular, when the plane is not horizontal (`N0 ≠ 0 ∨ N1 ≠ 0`).  (The three
-    trailing arguments of the kernel are the C output slots; it does not read them.)  On a horizontal plane the two differ,
-    see `cN_SDR_horizontal`. -/
-theorem cN_SDR_eq (N0 N1 N2 S0 S1 S2 a b c' : ℝ) (hN : N0 * N0 + N1 * N1 + N2 * N2 = 1)
-    (hS : S0 * S0 + S1 * S1 + S2 * S2 = 1) (hp : N0 * S0 + N1 * S1 + N2 * S2 = 0) (hxy : N0 ≠ 0 ∨ N1 ≠ 0) :
-    Pyx.cconvert.cN_SDR N0 N1 N2 S0 S1 S2 a b c' = fpToSdr ⟨N0, N1, N2⟩ ⟨S0, S1, S2⟩ := by
-  refine cN_SDR_eq_of_rake ⟨N0, N1, N2⟩ ⟨S0, S1, S2⟩ a b c' hN hS ?_
-  rintro m t (⟨rfl, rfl, hz⟩ | ⟨rfl, rfl, hz⟩)
-  · exact rakeOf_eq_plain hN hS hp (not_lt.mp hz) hxy
-  · refine rakeOf_eq_plain (by rw [dot_neg_neg]; exact hN) (by rw [dot_neg_neg]; exact hS)
-      (by rw [dot_neg_neg]; exact hp) ?_ ?_
-    · simp only [V3.neg]; linarith
-    · simp only [V3.neg, ne_eq, neg_eq_zero]; exact hxy
-
-/-- C20D item 5, without perpendicularity: for unit vectors the two agree whenever the Python path does not take its
-    near-horizontal rake form, i.e. when the horizontal part of the normal is at least `1e-6` long -/
-theorem cN_SDR_eq_of_steep (N0 N1 N2 S0 S1 S2 a b c' : ℝ) (hN : N0 * N0 + N1 * N1 + N2 * N2 = 1)
-    (hS : S0 * S0 + S1 * S1 + S2 * S2 = 1) (hdip : (sci 1 6 : ℝ) ≤ √(N0 ^ 2 + N1 ^ 2)) :
-    Pyx.cconvert.cN_SDR N0 N1 N2 S0 S1 S2 a b c' = fpToSdr ⟨N0, N1, N2⟩ ⟨S0, S1, S2⟩ := by
-  refine cN_SDR_eq_of_rake ⟨N0, N1, N2⟩ ⟨S0, S1, S2⟩ a b c' hN hS ?_
-  rintro m t (⟨rfl, rfl, hz⟩ | ⟨rfl, rfl, hz⟩)
-  · refine rakeOf_eq_plain_of_not_lt ?_
-    rw [sin_dip_eq (m := ⟨N0, N1, N2⟩) hN (not_lt.mp hz)]
-    exact not_lt.mpr hdip
-  · refine rakeOf_eq_plain_of_not_lt ?_
-    rw [sin_dip_eq (m := V3.neg ⟨N0, N1, N2⟩) (by rw [dot_neg_neg]; exact hN) (by simp only [V3.neg]; linarith)]
-    simp only [V3.neg, neg_sq]
-    exact not_lt.mpr hdip
-
-/-! ### the boundary: horizontal planes (FINDING) -/
+/-! ### horizontal planes -/
 
 theorem sci_1_6_pos : (0 : ℝ) < (sci 1 6 : ℝ) := by
   rw [flt_sci]; norm_num
 
 theorem atan2_zero_zero : atan2 0 0 = 0 := by unfold atan2; exact Complex.arg_zero
 
-/-- on the horizontal plane with normal `(0, 0, -1)` the compiled kernel returns rake `0` for every horizontal slip
-    direction: both arguments of its `atan2` vanish -/
-theorem cN_SDR_horizontal (S0 S1 a b c' : ℝ) :
-    Pyx.cconvert.cN_SDR 0 0 (-1) S0 S1 0 a b c' = (0, 0, 0) := by
-  rw [cN_SDR_closed, if_neg (by norm_num)]
-  have hm : mod2pi (0 : ℝ) = 0 := mod2pi_of_mem le_rfl (by positivity)
-  simp [atan2_zero_zero, hm]
-
-/-- while the model of the Python `FP_SDR`, which switches to the in-plane form of the rake for near-horizontal planes,
-    returns the angle of the slip vector from the strike direction -/
+/-- on the horizontal plane with normal `(0, 0, -1)` the model of `FP_SDR` returns strike 0, dip 0 and, as rake, the angle of
+    the slip vector from the strike direction (north) -/
 theorem fpToSdr_horizontal (S0 S1 : ℝ) (hS : S0 * S0 + S1 * S1 = 1) :
     fpToSdr ⟨0, 0, -1⟩ ⟨S0, S1, 0⟩ = (0, 0, atan2 (-S1) S0) := by
   have hN : V3.dot (⟨0, 0, -1⟩ : V3 ℝ) ⟨0, 0, -1⟩ = 1 := by simp [V3.dot]
@@ -104,17 +87,11 @@ theorem fpToSdr_horizontal (S0 S1 : ℝ) (hS : S0 * S0 + S1 * S1 = 1) :
   simp only [rakeRaw, hm, Real.sin_zero, Real.cos_zero, sci_1_6_pos, if_true]
   simp
 
-/-- FINDING (boundary of `cN_SDR_eq`): for the unit normal `(0, 0, -1)` and the unit slip `(0, 1, 0)`, perpendicular to it,
-    the compiled `cN_SDR` gives `(0, 0, 0)` and the model of the Python `FP_SDR` gives `(0, 0, -π/2)` -/
-theorem cN_SDR_ne_fpToSdr_horizontal (a b c' : ℝ) :
-    Pyx.cconvert.cN_SDR 0 0 (-1) 0 1 0 a b c' = (0, 0, 0) ∧ fpToSdr ⟨0, 0, -1⟩ ⟨0, 1, 0⟩ = (0, 0, -(π / 2)) := by
-  refine ⟨cN_SDR_horizontal 0 1 a b c', ?_⟩
-  rw [fpToSdr_horizontal 0 1 (by norm_num)]
-  have : atan2 (-1) 0 = -(π / 2) := by
-    unfold atan2
-    have h : (⟨0, -1⟩ : ℂ) = -Complex.I := by apply Complex.ext <;> simp
-    rw [h, Complex.arg_neg_I]
-  rw [this]
+/-- and so does the compiled kernel (before the repair of the .pyx it returned rake 0 there: both arguments of
+    `atan2(-S2, S0 N1 - S1 N0)` vanish) -/
+theorem cN_SDR_horizontal (S0 S1 a b c' : ℝ) (hS : S0 * S0 + S1 * S1 = 1) :
+    Pyx.cconvert.cN_SDR 0 0 (-1) S0 S1 0 a b c' = (0, 0, atan2 (-S1) S0) := by
+  rw [cN_SDR_eq 0 0 (-1) S0 S1 0 a b c' (by norm_num) (by linarith), fpToSdr_horizontal S0 S1 hS]
 
 /-! ### `csingleSDR_SDR` -/
 
@@ -184,26 +161,14 @@ theorem sdrToSdr_eq_aux (s d r : ℝ) : sdrToSdr s d r = fpToSdr (sdrVec1 s d r)
       = 1 := by rw [normalDot_fpToSdr h2, h2, abs_one]
   simp only [sdrToSdr, C13.sdrToFp_eq, e1, e2, flt_ltb, zero_lt_one, decide_true, if_true]
 
-/-- C20D item 6: over ℝ the compiled `csingleSDR_SDR` equals the model `sdrToSdr` of the Python `SDR_SDR` when
-    `0 ≤ sin d` (the code takes the non-negative root `√(1 - cos² d)` for `sin d`) and the auxiliary plane is not horizontal
-    (`sin d · sin r ≠ ±1`, i.e. not a vertical dip-slip fault).  On that boundary the two differ, see
-    `csingleSDR_SDR_ne_sdrToSdr_vertical_dip_slip`. -/
-theorem csingleSDR_SDR_eq (s d r a b c' : ℝ) (hd : 0 ≤ sin d)
-    (hne : sin d * sin r ≠ 1 ∧ sin d * sin r ≠ -1) :
+/-- C20D item 6: over ℝ the compiled `csingleSDR_SDR` equals the model `sdrToSdr` of the Python `SDR_SDR` whenever
+    `0 ≤ sin d` (the code takes the non-negative root `√(1 - cos² d)` for `sin d`), vertical dip-slip faults — whose auxiliary
+    plane is horizontal — included. -/
+theorem csingleSDR_SDR_eq (s d r a b c' : ℝ) (hd : 0 ≤ sin d) :
     Pyx.cconvert.csingleSDR_SDR s d r a b c' = sdrToSdr s d r := by
-  obtain ⟨h1, h2, h3⟩ := C13.sdrVecs_unit_perp s d r
+  obtain ⟨h1, h2, -⟩ := C13.sdrVecs_unit_perp s d r
   rw [csingleSDR_SDR_closed s d r a b c' hd, sdrToSdr_eq_aux]
-  refine cN_SDR_eq _ _ _ _ _ _ a b c' h1 h2 h3 ?_
-  by_contra hxy
-  rw [not_or, not_not, not_not] at hxy
-  obtain ⟨hx, hy⟩ := hxy
-  simp only [V3.dot, hx, hy] at h1
-  have hz : (sdrVec1 s d r).z = -(sin d * sin r) := by simp only [sdrVec1, flt_sin]; ring
-  rw [hz] at h1
-  have : (sin d * sin r - 1) * (sin d * sin r + 1) = 0 := by linear_combination h1
-  rcases mul_eq_zero.mp this with h | h
-  · exact hne.1 (by linarith)
-  · exact hne.2 (by linarith)
+  exact cN_SDR_eq _ _ _ _ _ _ a b c' h1 h2
 
 /-- the dip enters the compiled kernel through `cos d` only -/
 theorem csingleSDR_SDR_neg_dip (s d r a b c' : ℝ) :
@@ -211,31 +176,29 @@ theorem csingleSDR_SDR_neg_dip (s d r a b c' : ℝ) :
   unfold Pyx.cconvert.csingleSDR_SDR
   simp only [flt_cos, Real.cos_neg]
 
-/-- so for `sin d ≤ 0` it returns the auxiliary plane of `(s, -d, r)`, not of `(s, d, r)` -/
-theorem csingleSDR_SDR_eq_of_sin_nonpos (s d r a b c' : ℝ) (hd : sin d ≤ 0)
-    (hne : sin d * sin r ≠ 1 ∧ sin d * sin r ≠ -1) :
+/-- FINDING (outside the physical range of the dip): so for `sin d ≤ 0` it returns the auxiliary plane of `(s, -d, r)`, not of
+    `(s, d, r)` -/
+theorem csingleSDR_SDR_eq_of_sin_nonpos (s d r a b c' : ℝ) (hd : sin d ≤ 0) :
     Pyx.cconvert.csingleSDR_SDR s d r a b c' = sdrToSdr s (-d) r := by
   rw [← csingleSDR_SDR_neg_dip]
-  refine csingleSDR_SDR_eq s (-d) r a b c' (by rw [Real.sin_neg]; linarith) ?_
-  rw [Real.sin_neg]
-  constructor
-  · intro h; exact hne.2 (by linarith)
-  · intro h; exact hne.1 (by linarith)
+  exact csingleSDR_SDR_eq s (-d) r a b c' (by rw [Real.sin_neg]; linarith)
 
-/-- FINDING (boundary of `csingleSDR_SDR_eq`): for the vertical dip-slip fault `(s, d, r) = (0, π/2, π/2)` the auxiliary plane
-    is horizontal; the compiled `csingleSDR_SDR` gives `(0, 0, 0)` and the model of the Python `SDR_SDR` gives
-    `(0, 0, -π/2)` -/
-theorem csingleSDR_SDR_ne_sdrToSdr_vertical_dip_slip (a b c' : ℝ) :
-    Pyx.cconvert.csingleSDR_SDR 0 (π / 2) (π / 2) a b c' = (0, 0, 0) ∧ sdrToSdr 0 (π / 2) (π / 2) = (0, 0, -(π / 2)) := by
+/-- the vertical dip-slip fault `(s, d, r) = (0, π/2, π/2)`, whose auxiliary plane is horizontal: the compiled
+    `csingleSDR_SDR` and the model of the Python `SDR_SDR` both give `(0, 0, -π/2)` (before the repair of `cN_SDR` the
+    kernel gave `(0, 0, 0)`) -/
+theorem csingleSDR_SDR_vertical_dip_slip (a b c' : ℝ) :
+    Pyx.cconvert.csingleSDR_SDR 0 (π / 2) (π / 2) a b c' = (0, 0, -(π / 2)) ∧
+      sdrToSdr 0 (π / 2) (π / 2) = (0, 0, -(π / 2)) := by
   have hv1 : sdrVec1 0 (π / 2) (π / 2) = ⟨0, 0, -1⟩ := by
     apply V3.ext' <;> simp [sdrVec1]
   have hv2 : sdrVec2 0 (π / 2) = ⟨0, 1, 0⟩ := by
     apply V3.ext' <;> simp [sdrVec2]
-  obtain ⟨hc, hm⟩ := cN_SDR_ne_fpToSdr_horizontal a b c'
-  constructor
-  · rw [csingleSDR_SDR_closed _ _ _ _ _ _ (by rw [Real.sin_pi_div_two]; norm_num), hv1, hv2]
-    exact hc
-  · rw [sdrToSdr_eq_aux, hv1, hv2]
-    exact hm
+  have ha : atan2 (-1) 0 = -(π / 2) := by
+    unfold atan2
+    have h : (⟨0, -1⟩ : ℂ) = -Complex.I := by apply Complex.ext <;> simp
+    rw [h, Complex.arg_neg_I]
+  have hm : sdrToSdr 0 (π / 2) (π / 2) = (0, 0, -(π / 2)) := by
+    rw [sdrToSdr_eq_aux, hv1, hv2, fpToSdr_horizontal 0 1 (by norm_num), ha]
+  exact ⟨by rw [csingleSDR_SDR_eq _ _ _ _ _ _ (by rw [Real.sin_pi_div_two]; norm_num), hm], hm⟩
 
 end MTfitVerif.C20
